@@ -11,8 +11,11 @@
 (* operands written in different units).                                     *)
 EXTENDS Arith
 CONSTANTS MaxLen, ExportLen, LeafSet, XShapes, YShapes, ValSets, ReexAll, OpSet,
-          InitPairs      \* {} = every pair of leaf units; otherwise the set of 100*ix+iy to start from
+          InitPairs,     \* {} = every pair of leaf units; otherwise the set of 100*ix+iy to start from
+          ClassPairs     \* TRUE: leaf pairs of one scale class (Reex) plus those listed in InitPairs
 
+UX(i, e6) == [k \in 1..NA |-> IF k = i THEN e6 ELSE 0]      \* exponent given x6
+U3(i, ei, j, ej, l, el) == [k \in 1..NA |-> IF k = i THEN 6 * ei ELSE IF k = j THEN 6 * ej ELSE IF k = l THEN 6 * el ELSE 0]
 U2(i, ei, j, ej) == [k \in 1..NA |-> IF k = i THEN 6 * ei ELSE IF k = j THEN 6 * ej ELSE 0]
 \* leaf unit catalogue
 LeafCat == << UAtom(1), UAtom(2), UAtom(3), UAtom(4), UAtom(5), UAtom(6), UOne,
@@ -21,8 +24,14 @@ LeafCat == << UAtom(1), UAtom(2), UAtom(3), UAtom(4), UAtom(5), UAtom(6), UOne,
               UAtom(12), UAtom(14), UAtom(15), UAtom(13), U2(3, 2, 3, 2), U2(8, 2, 8, 2), U2(1, 1, 5, -1),
               \* 25..37: magnitude classes (tiny / huge scales, see Arith!AtomPV)
               UAtom(16), UAtom(17), UAtom(18), UAtom(19), UAtom(20), UAtom(21), UAtom(22), UAtom(23), UAtom(24), UAtom(25),
-              UAtom(26), UAtom(27), UAtom(28) >>
-NLeafCat == 37
+              UAtom(26), UAtom(27), UAtom(28),
+              \* 38..39: angle units with a zero point (trig only)
+              UAtom(29), UAtom(30),
+              \* 40..46: units whose quotient / product cancels only partly pair by pair: exponents 3/2 and -3/2 (the integer part
+              \* cancels pairwise into the coefficient, the half power is left as a scaled dimensionless unit), and the compound
+              \* velocity atom xva (xva*xlb against xlc*xla/xta: xlb/xlc cancels pairwise, xva*xta/xla only as a whole)
+              UX(2, 9), UX(3, 9), UX(3, -9), UX(1, 9), UAtom(31), U3(31, 1, 2, 1, 2, 0), U3(3, 1, 1, 1, 4, -1) >>
+NLeafCat == 46
 IsAngle(u) == DV(u) = DAngle1
 Commens(i, j) == DV(LeafCat[i]) = DV(LeafCat[j])
 \* a leaf is re-expressed inside its scale class: commensurable units whose scale ratio is a small rational (so that the
@@ -38,18 +47,29 @@ Alt(i) == IF ReexAll THEN {j \in LeafSet : Reex(i, j)} ELSE {NextIn(i)}
 \* leaf values (run A)
 \* angles: degrees for `degree`, multiples of 15 degrees for the other angle leaves; chosen so that sin and cos (x) / tan (y)
 \* are rational on every element (set 1) or sin = 1/2 (x), cos = +-1/2 (y) (other sets)
-XVals(u, s) == IF IsAngle(u) THEN (IF s = 1 THEN (IF u = UAtom(12) THEN <<R(90), R(180)>> ELSE <<R(6), R(12)>>)
-                                   ELSE (IF u = UAtom(12) THEN <<R(30), R(150)>> ELSE <<R(2), R(10)>>))
+DegX(s) == IF s = 1 THEN <<R(90), R(180)>> ELSE <<R(30), R(150)>>
+DegY(s) == IF s = 1 THEN <<R(45), R(135)>> ELSE <<R(60), R(120)>>
+StepX(s) == IF s = 1 THEN <<R(6), R(12)>> ELSE <<R(2), R(10)>>
+StepY(s) == IF s = 1 THEN <<R(3), R(9)>> ELSE <<R(4), R(8)>>
+\* the same angles written in lat (degrees = 90 - x) / lon (degrees = x + 180)
+FromDeg(v, u) == IF u = UAtom(LatAtom) THEN [i \in DOMAIN v |-> RSub(R(90), v[i])] ELSE IF u = UAtom(LonAtom) THEN [i \in DOMAIN v |-> RSub(v[i], R(180))] ELSE v
+ToDeg(v, u) == IF u = UAtom(LatAtom) THEN [i \in DOMAIN v |-> RSub(R(90), v[i])] ELSE IF u = UAtom(LonAtom) THEN [i \in DOMAIN v |-> RAdd(v[i], R(180))] ELSE v
+XVals(u, s) == IF IsAngle(u) THEN (IF u = UAtom(12) THEN DegX(s) ELSE IF HasOffset(u) THEN FromDeg(DegX(s), u) ELSE StepX(s))
                ELSE CASE s = 1 -> <<R(7), <<-5, 2>> >> [] s = 2 -> <<R(-9), R(4)>> [] s = 3 -> <<R(64), R(96)>> [] s = 4 -> <<R(96), R(40)>>
-YVals(u, s) == IF IsAngle(u) THEN (IF s = 1 THEN (IF u = UAtom(12) THEN <<R(45), R(135)>> ELSE <<R(3), R(9)>>)
-                                   ELSE (IF u = UAtom(12) THEN <<R(60), R(120)>> ELSE <<R(4), R(8)>>))
+YVals(u, s) == IF IsAngle(u) THEN (IF u = UAtom(12) THEN DegY(s) ELSE IF HasOffset(u) THEN FromDeg(DegY(s), u) ELSE StepY(s))
                ELSE CASE s = 1 -> <<R(3), R(2)>> [] s = 2 -> <<R(-2), <<5, 4>> >> [] s = 3 -> <<R(2), <<3, 2>> >> [] s = 4 -> <<R(4), R(3)>>
 VB == 8192
 Bounded(v) == \A i \in DOMAIN v : IAbs(v[i][1]) <= VB /\ v[i][2] <= VB
 RECURSIVE Pow2(_)
 Pow2(d) == d = 1 \/ (d % 2 = 0 /\ Pow2(d \div 2))
 DyadicVals(v) == \A i \in DOMAIN v : Pow2(v[i][2])
-Conv(v, ua, ub) == LET c == PVRat(VSub(SV(ua), SV(ub))) IN Map1(LAMBDA x : CMul(G(x), c), v)
+\* re-expression of leaf numbers: by the ratio of the scales; through degrees when a zero point is involved
+Deg == UAtom(12)
+ConvR(v, ua, ub) == LET c == PVRat(VSub(SV(ua), SV(ub))) IN Map1(LAMBDA x : CMul(G(x), c), v)
+Conv(v, ua, ub) == IF ~(HasOffset(ua) \/ HasOffset(ub)) THEN ConvR(v, ua, ub)
+                   ELSE LET d == IF HasOffset(ua) THEN GV(ToDeg(v, ua)) ELSE ConvR(v, ua, Deg) IN
+                        IF ~AllOk(d) THEN d
+                        ELSE IF HasOffset(ub) THEN GV(FromDeg(Strip(d), ub)) ELSE ConvR(Strip(d), Deg, ub)
 Leaf(v, u) == [k |-> "q", u |-> u, v |-> v, rv |-> v, pv |-> v, pf |-> "ok", ex |-> UDyadic(u) /\ DyadicVals(v)]
 
 VARIABLES steps, ra, rb, cfgv
@@ -60,7 +80,7 @@ BareNum(p) == [k |-> "n", u |-> UOne, v |-> <<p>>, rv |-> <<p>>, pv |-> <<p>>, p
 Init ==
   \E ix \in LeafSet, iy \in LeafSet, xs \in XShapes, ys \in YShapes, s \in ValSets :
   \E jx \in Alt(ix), jy \in Alt(iy) :
-    (InitPairs = {} \/ (100 * ix + iy) \in InitPairs) /\
+    (IF ClassPairs THEN Reex(ix, iy) \/ (100 * ix + iy) \in InitPairs ELSE InitPairs = {} \/ (100 * ix + iy) \in InitPairs) /\
     LET ux == LeafCat[ix]  uy == LeafCat[iy]  vx == IF xs = "s" THEN <<XVals(ux, s)[1]>> ELSE XVals(ux, s)
         vy == IF ys = "s" THEN <<YVals(uy, s)[1]>> ELSE YVals(uy, s)
         wx == Conv(vx, ux, LeafCat[jx])  wy == Conv(vy, uy, LeafCat[jy]) IN
@@ -107,7 +127,6 @@ Run(op, meth, A, B, p, unary) ==
   IF ~(A.k \in {"q", "n"} /\ B.k \in {"q", "n", "x"} /\ (A.k = "q" \/ B.k = "q")) THEN No
   ELSE IF ~Shapes(op, meth, A, B, unary) \/ ~InClaim(op, meth, A, B) THEN No
   ELSE IF op \in PowUn \cup {"power"} /\ ~UPowOk(A.u, PowOf(op, p)[1], PowOf(op, p)[2]) THEN No
-  ELSE IF op \in MulBin \cup {"dot"} /\ meth # "reduce" /\ ~UIntegral(MulUnitIn(op, meth, A, B)) /\ Cancellable(MulUnitIn(op, meth, A, B)) THEN No
   ELSE IF op \in Discontinuous /\ ~((A.ex /\ B.ex) \/ Robust(op, meth, A, B)) THEN No
   ELSE IF RadianRaw(op, A, B) \/ ~SignedZeroFree(op, A, B) THEN No
   ELSE LET r == ImplStep(op, meth, A, B, p) IN
